@@ -187,7 +187,8 @@ impl<'buf> Session<'buf> {
 
         self.runtime.session_resumed = resumed;
         self.runtime.keepalive_interval = keepalive_interval;
-        self.runtime.send_quota = send_quota;
+        self.runtime.send_quota =
+            send_quota.saturating_sub(self.data.outbound.inflight_publishes() as u16);
         self.runtime.max_send_quota = max_send_quota;
         self.runtime.max_qos = max_qos;
         self.runtime.maximum_packet_size = maximum_packet_size;
